@@ -140,6 +140,7 @@ func ReadFile(r io.Reader) (File, []string, error) {
 			f.Consts = append(f.Consts, cons)
 		}
 		nextCommentLines = []string{}
+		nextRecordBitFlags = false
 		nextRecordOpCode = 0
 	}
 	// Next also stops at a tokenizer or reader error; do not mistake that for the end of the input
